@@ -194,15 +194,18 @@ def requests_for(g, rng, others):
     L = [("f", "xp f %s %s %s" % (o, P, S))]
     for extra in ("F", "H", "FH"):
         L.append(("f+" + extra, "xp f %s%s %s %s" % (g["opts"], extra, P, S)))
-    L.append(("wrapF", "xp f %sF %s %s" % (g["opts"], hx([40, 63, 58] + g["pat"] + [41]), S)))
-    L.append(("b", "xp b %s %s %s" % (o, P, S)))
-    L.append(("i", "xp i %s %s %s" % (o, P, S)))
+    L.append(("wrapF", "xp f %sFH %s %s" % (g["opts"], hx([40, 63, 58] + g["pat"] + [41]), S)))
+    L.append(("b", "xp b %sFH %s %s" % (g["opts"], P, S)))
+    L.append(("b0", "xp b %s %s %s" % (o, P, S)))
+    L.append(("i", "xp i %sFH %s %s" % (g["opts"], P, S)))
     # reused Match across several expressions (different group counts) and subjects
     def has_sub(p):
         return any(p[j] == 45 and p[j + 1] == 91 for j in range(len(p) - 1))
     pats = [g["pat"]] + [x["pat"] for x in others if not ("i" in g["opts"] and has_sub(x["pat"]))]
     L.append(("r", "xp r %s %s %s" % (o, ",".join(hx(p) for p in pats), S)))
     L.append(("fseq", "xp f %s %s %s" % (o, ",".join(hx(p) for p in pats), S)))
+    L.append(("r2", "xp r %sFH %s %s" % (g["opts"], ",".join(hx(p) for p in pats), S)))
+    L.append(("fseq2", "xp f %sFH %s %s" % (g["opts"], ",".join(hx(p) for p in pats), S)))
     # windows
     ws = []
     for s in g["subj"]:
@@ -212,8 +215,10 @@ def requests_for(g, rng, others):
             ws.append((s, a, b))
     g["windows"] = ws
     if ws:
-        L.append(("win", "xp f %s %s %s" % (o, P, ",".join("%s:%d:%d" % (hx(s), a, b) for s, a, b in ws))))
-        L.append(("sub", "xp f %s %s %s" % (o, P, ",".join(hx(s[a:b]) for s, a, b in ws))))
+        L.append(("win", "xp f %sFH %s %s" % (g["opts"], P, ",".join("%s:%d:%d" % (hx(s), a, b) for s, a, b in ws))))
+        L.append(("sub", "xp f %sFH %s %s" % (g["opts"], P, ",".join(hx(s[a:b]) for s, a, b in ws))))
+        L.append(("win0", "xp f %s %s %s" % (o, P, ",".join("%s:%d:%d" % (hx(s), a, b) for s, a, b in ws))))
+        L.append(("sub0", "xp f %s %s %s" % (o, P, ",".join(hx(s[a:b]) for s, a, b in ws))))
     L.append(("t", "xp t %s %s %s" % (o, P, S)))
     return L
 
@@ -252,11 +257,17 @@ def evaluate(g, tagged, answers):
             if split_res(A[t])[0] != f:
                 bad.append(("O1-parse", "variant %s: %s vs %s" % (t, A[t][:60], A["f"][:60]), Ln[t]))
         return bad, None
-    for t in ("f+F", "f+H", "f+FH"):
-        x = split_res(A[t])[0]
-        if x != f:
-            k = next(i for i, (p, q) in enumerate(zip(x, f)) if p != q)
-            bad.append(("O1-options", "option %s changes the result of subject #%d: %s vs %s" % (t[2:], k, x[k], f[k]), Ln[t]))
+    fF, fH, fFH = (split_res(A[t])[0] for t in ("f+F", "f+H", "f+FH"))
+    if f == fF and fH == fFH and f != fH:
+        # only the head-character optimisation (switched off by H) changes the result: class of F33
+        k = next(i for i, (p, q) in enumerate(zip(fH, f)) if p != q)
+        bad.append(("F33-headchar", "option H changes the result of subject #%d: %s vs %s" % (k, fH[k], f[k]), Ln["f+H"]))
+    else:
+        for t, x in (("f+F", fF), ("f+H", fH), ("f+FH", fFH)):
+            if x != f:
+                k = next(i for i, (p, q) in enumerate(zip(x, f)) if p != q)
+                bad.append(("O1-options", "option %s changes the result of subject #%d: %s vs %s" % (t[2:], k, x[k], f[k]), Ln[t]))
+    f = fFH            # the reference for the remaining oracles is the run without pre-filters
     w = split_res(A["wrapF"])[0]
     if w != ["parse-error"]:
         for k, (p, q) in enumerate(zip(w, f)):
@@ -268,15 +279,21 @@ def evaluate(g, tagged, answers):
         if p[:1] != q[:1]:
             bad.append(("O4-match-object", "subject #%d: without Match %s, with Match %s" % (k, p, q), Ln["b"]))
             break
+    f0 = split_res(A["f"])[0]
+    for k, (p, q) in enumerate(zip(split_res(A["b0"])[0], f0)):
+        if p[:1] != q[:1]:
+            bad.append(("O4-match-object", "subject #%d (pre-filters on): without Match %s, with Match %s" % (k, p, q), Ln["b0"]))
+            break
     i = split_res(A["i"])[0]
     if "UNSTABLE" in i or i[:len(f)] != f:
         bad.append(("O5-stateless", "repeated/interleaved use differs: %s" % A["i"][:120], Ln["i"]))
-    r, fs = split_res(A["r"]), split_res(A["fseq"])
-    if r != fs:
+    for rt, ft in (("r", "fseq"), ("r2", "fseq2")):
+      r, fs = split_res(A[rt]), split_res(A[ft])
+      if r != fs:
         for pi, (x, y) in enumerate(zip(r, fs)):
             for k, (p, q) in enumerate(zip(x, y)):
                 if p != q and not (p[:1] == "0" and q[:1] == "0"):
-                    bad.append(("O3-reused-match", "expression #%d subject #%d: reused Match %s, fresh Match %s" % (pi, k, p, q), Ln["r"]))
+                    bad.append(("O3-reused-match", "expression #%d subject #%d: reused Match %s, fresh Match %s" % (pi, k, p, q), Ln[rt]))
                     break
             else:
                 continue
